@@ -661,7 +661,7 @@ func runC20Walk(tb report.TB, rep *report.Reporter, c c20WalkCase) {
 	labelPool := []string{"bug", "ui", "prod", "Good first issue", "wontfix", "docs"}
 	var bugIds []string
 	for i := 0; i < c.NBugs; i++ {
-		bc, _, err := r.Cache.Bugs().NewRaw(authors[i%len(authors)], int64(1000+i), fmt.Sprintf("walk bug %d", i%4), "m", nil, nil)
+		bc, _, err := r.Cache.Bugs().NewRaw(authors[i%len(authors)], int64(1000+i/3), fmt.Sprintf("walk bug %d", i%4), "m", nil, nil) // several bugs per second (a script, an import): wall-clock ties
 		if err != nil {
 			tb.Fatalf("harness: %v", err)
 		}
